@@ -17,6 +17,17 @@ import (
 	"github.com/q191201771/naza/pkg/nazaerrors"
 )
 
+// calcTargetDuration 计算EXT-X-TARGETDURATION的值
+//
+// RFC 8216 4.3.3.1: 列表中每个分片的EXTINF时长，四舍五入取整后，都必须小于等于EXT-X-TARGETDURATION。
+// 所以结果为最大分片时长（按写入EXTINF的精度，即毫秒）四舍五入后的整数秒
+//
+// @param maxDuration 列表中最大的分片时长，单位秒
+func calcTargetDuration(maxDuration float64) int {
+	ms := int(maxDuration*1000 + 0.5)
+	return (ms + 500) / 1000
+}
+
 // writeM3u8File
 //
 // @param content     需写入文件的内容
